@@ -383,7 +383,7 @@ Proof.
   assert (G : forall s1 y, bps s1 = bps s -> snt y = snt x -> forall b', snt (get_bp (put_bp s1 b y) b') = snt (get_bp s b')).
   { intros s1 y E1 E2 b'. rewrite get_bp_snt_put by (rewrite E1; auto). destruct (Nat.eqb_spec b' b) as [->|N]; auto.
     unfold get_bp. now rewrite E1. }
-  cbv zeta. destruct m as [i r|r|]; try (destruct (refusing x)); try (destruct d as [|[|d]]);
+  cbv zeta. destruct m as [i r|r|]; try (destruct (refusing x)); simpl is_fin; cbv iota; try (destruct d as [|[|d]]);
     (split; [reflexivity|split; [reflexivity|]]).
   all: match goal with |- forall b', snt (get_bp (set_bps ?S (upd _ (fun _ => ?Y) _)) b') = _ => apply (G S Y) end; try reflexivity.
   all: try (match goal with |- snt (if ?c then _ else _) = _ => destruct c; reflexivity end).
